@@ -279,6 +279,7 @@ type world struct {
 	valid          map[string]bool // rules built by an earlier successful build and untouched since
 	known          map[string]bool // every output path a rule or an op of this history named
 	aged           bool            // the cache records were aged past the expiry in this history
+	keep           builders        // non-nil: the Builder is created once and reused by every build
 }
 
 func newWorld(base string) *world {
@@ -320,6 +321,7 @@ func (w *world) reset() {
 	w.rules = nil
 	w.known = map[string]bool{}
 	w.valid = map[string]bool{}
+	w.keep = nil
 	w.aged = false
 	w.saved = map[string]*savedFile{}
 	w.maxMtime = map[string]int64{}
@@ -432,8 +434,12 @@ func (w *world) apply(line string) string {
 		w.reset()
 	}
 	switch {
-	case ws[0] == "ws" && len(ws) == 1:
+	case ws[0] == "ws":
 		w.reset()
+		if v, _ := kvGet(ws[1:], "reuse"); v == "1" {
+			w.keep = builders{} // one Builder (per configuration) for every build of this history
+			w.counts["history:one-builder-reused"]++
+		}
 		return "ok"
 	case ws[0] == "src" && len(ws) >= 3:
 		w.lastKind = "src-" + ws[1]
@@ -609,19 +615,33 @@ func (w *world) apply(line string) string {
 var logMu sync.Mutex
 
 // realBuild runs caco3.Builder.Build and observes it.
+// builders keeps one Builder per configuration for a history that reuses its Builder.
+type builders map[bool]*caco3.Builder
+
 func realBuild(root string, always bool, targets []string) (class string, execd []string, msg string) {
+	return realBuildWith(nil, root, always, targets)
+}
+
+func realBuildWith(keep builders, root string, always bool, targets []string) (class string, execd []string, msg string) {
 	logMu.Lock()
 	defer logMu.Unlock()
 	var buf bytes.Buffer
 	log.SetOutput(&buf)
 	log.SetFlags(0)
 	defer log.SetOutput(io.Discard)
-	b, err := caco3.NewBuilder(root, &caco3.Config{Root: root, AlwaysRebuild: always})
-	if err != nil {
-		return "other:new-builder", nil, err.Error()
-	}
-	if _, errs := b.ReadWorkspace(); errs != nil {
-		return "other:workspace", nil, errs[0].Error()
+	b := keep[always]
+	if b == nil {
+		var err error
+		b, err = caco3.NewBuilder(root, &caco3.Config{Root: root, AlwaysRebuild: always})
+		if err != nil {
+			return "other:new-builder", nil, err.Error()
+		}
+		if _, errs := b.ReadWorkspace(); errs != nil {
+			return "other:workspace", nil, errs[0].Error()
+		}
+		if keep != nil {
+			keep[always] = b
+		}
 	}
 	errs := b.Build(targets)
 	for _, l := range strings.Split(buf.String(), "\n") {
@@ -915,7 +935,7 @@ func (w *world) buildOp(always bool, targets []string, line string) string {
 	w.barrier()
 	w.builds++
 	obs := &buildObs{}
-	obs.class, obs.exec, obs.errMsg = realBuild(w.root, always, targets)
+	obs.class, obs.exec, obs.errMsg = realBuildWith(w.keep, w.root, always, targets)
 	obs.cache = cacheCount(w.root)
 	obs.outNames, obs.outs = observeOuts(w.root, w.rules, targets)
 	res := showObs(obs)
@@ -999,7 +1019,7 @@ func (w *world) buildOp(always bool, targets []string, line string) string {
 	if obs.class == "builderr" {
 		fr := obs.exec[len(obs.exec)-1]
 		w.barrier()
-		c2, e2, _ := realBuild(w.root, false, targets)
+		c2, e2, _ := realBuildWith(w.keep, w.root, false, targets)
 		n2 := cacheCount(w.root)
 		w.counts["oracle:failed-rule-rebuild-checked"]++
 		again := len(e2) > 0 && e2[len(e2)-1] == fr
@@ -1055,7 +1075,7 @@ func (w *world) buildOp(always bool, targets []string, line string) string {
 	// (after an AlwaysRebuild build too: the ordinary build that follows it finds everything up to date)
 	if obs.class == "ok" {
 		w.barrier()
-		c2, e2, _ := realBuild(w.root, false, targets)
+		c2, e2, _ := realBuildWith(w.keep, w.root, false, targets)
 		if always {
 			w.counts["oracle:null-build-after-always-checked"]++
 			if c2 != "ok" || len(e2) > 0 {
